@@ -6,6 +6,8 @@
 -/
 import Distill.Proofs.Total
 import Distill.Gen.Inventory
+import Distill.Proofs.PathPattern
+import Distill.Proofs.PageGroups
 namespace Distill.C01
 open Distill
 
@@ -83,5 +85,39 @@ of the library are exactly the reviewed ones (go/extract/expect/hazardSites.json
 says for each group why it cannot fail or that it is fuzz-only).  A new or changed site makes
 this fail and re-opens the question. -/
 theorem hazard_sites_tie : Gen.hazardSites = Gen.hazardSitesExpected := by rfl
+
+/-! ### pagination: the index arithmetic of path-component page patterns -/
+
+/-- **`PathComponentPagePattern.IsPagingURL` never indexes out of range**, whatever URL string it
+is asked about (the three slicing sites of `isPagingUrlForStartOfPathComponent`, the loop and
+the two slices of `isPagingUrlForNotStartOfPathComponent`, `strURL[placeholderStart-1]`), for
+every pattern whose stored fields are well-formed … -/
+theorem paging_url_total (pp : PP.PathPat) (h : PP.WF pp) (url : PP.Bytes) :
+    (PP.isPagingURL pp url).isSome = true :=
+  PP.isPagingURL_total pp h url
+
+/-- … which is what the constructor establishes whenever its own slices are in range … -/
+theorem pattern_fields_wf (str : PP.Bytes) (origin : Int) (pp : PP.PathPat)
+    (h : PP.construct str origin = some pp) : PP.WF pp :=
+  PP.construct_wf str origin pp h
+
+/-- … and they are, as soon as the placeholder occurs in the pattern string after a '/'
+(the pattern string of an absolute URL starts with `scheme://`). -/
+theorem pattern_construct_total (str : PP.Bytes) (origin : Int)
+    (h1 : 0 ≤ PP.indexPlaceholder str)
+    (h2 : ∀ head, PP.sliceTo str (PP.indexPlaceholder str) = some head → 0 ≤ PP.lastIndexSlash head) :
+    (PP.construct str origin).isSome = true :=
+  PP.construct_total str origin h1 h2
+
+/-- non-vacuity: the pattern of `http://e.com/a/page-3.html` is well-formed and accepts page 12 -/
+example : (PP.construct "http://e.com/a/page-[*!].html".toUTF8.toList 12).map
+    (fun pp => (pp.pStart, pp.segStart, PP.isPagingURL pp "http://e.com/a/page-12.html".toUTF8.toList)) =
+    some (20, 14, some true) := by decide +kernel
+
+/-- `AddPageInfo`'s read of `prevPageInfo.PageNumber` is never a nil dereference under the
+scan's call protocol (no CleanUp before the end): the remembered entry is the last entry of the
+group being filled whenever that group is non-empty -/
+theorem groups_prev_never_nil (ops : List Pg.GOp) (h : Pg.NoCleanUp ops) : Pg.Inv (Pg.runOps ops) :=
+  Pg.runOps_inv ops h
 
 end Distill.C01
